@@ -4,6 +4,7 @@ from __future__ import annotations
 import ast
 
 from .. import memo
+from .. import shape as _sh
 from ..flow import call_name, dotted, norm, writes_in
 from ..index import AnalysisError, Resolver, walk_local
 from ..lib import cfg_of, defs_of, live, node_has, nodes_calling, nodes_with, witness
@@ -37,6 +38,7 @@ def run(ck, ix, tier):
     ins = ins[0]
     ins_call = [c for c in ast.walk(cfg.nodes[ins].ast) if isinstance(c, ast.Call) and call_name(c) == "insert_contexts"][0]
     inserted = norm(ins_call.args[0].value) if ins_call.args and isinstance(ins_call.args[0], ast.Starred) else None
+    inserted_r = _sh.rnorm(ins_call.args[0].value, fi.node) if inserted is not None else None
     removes = nodes_with(cfg, lambda x: isinstance(x, ast.Call) and call_name(x) == "remove_contexts" and "_active_ctx" in norm(x.func))
     switches = nodes_calling(cfg, "_switch_context_cache_and_units")
     ck.check(bool(switches), "G-PAIR", "enable_contexts|switch-after-insert", fi.loc(),
@@ -55,7 +57,8 @@ def run(ck, ix, tier):
     for r in live(cfg, removes):
         c = [c for c in ast.walk(cfg.nodes[r].ast) if isinstance(c, ast.Call) and call_name(c) == "remove_contexts"][0]
         arg = norm(c.args[0]) if c.args else "None"
-        ck.check(inserted is not None and arg == f"len({inserted})", "G-PAIR", "enable_contexts|rollback-removes-what-was-inserted", fi.loc(c),
+        same = inserted is not None and (arg == f"len({inserted})" or (bool(c.args) and _sh.rnorm(c.args[0], fi.node) == f"len({inserted_r})"))   # the count may be held in a temporary
+        ck.check(same, "G-PAIR", "enable_contexts|rollback-removes-what-was-inserted", fi.loc(c),
                  f"rollback removes len({inserted}) contexts", f"rollback removes `{arg}` contexts but `*{inserted}` were inserted")
         # after the removal the overlay/cache must be restored and the exception re-raised
         nxt = [v for (v, lab) in cfg.succ[r] if lab != "exc"]
@@ -115,11 +118,19 @@ def run(ck, ix, tier):
     # with_context
     fi = ix.func(CR, "GenericContextRegistry.with_context")
     ck.analysed(fi)
-    wr = [f for f in fi.module.all_functions if f.name == "wrapper" and f.qualname.startswith(fi.qualname)]
+    # the wrapper, by role: a function nested in with_context that calls the decorated function, i.e. a parameter of
+    # the function it is nested in (the decorator)
+    def decorated_calls(f):
+        outer = getattr(f, "parent", None)
+        if outer is None or outer is fi or not isinstance(getattr(outer, "node", None), (ast.FunctionDef, ast.AsyncFunctionDef)):
+            return []
+        ps = {a.arg for a in outer.node.args.args + outer.node.args.posonlyargs + outer.node.args.kwonlyargs}
+        return [c for c in walk_local(f.node) if isinstance(c, ast.Call) and isinstance(c.func, ast.Name) and c.func.id in ps]
+    wr = [f for f in fi.module.all_functions if f.qualname.startswith(fi.qualname) and f is not fi and isinstance(f.node, (ast.FunctionDef, ast.AsyncFunctionDef)) and decorated_calls(f)]
     ck.floor("G-PAIR", len(wr), 1, "wrapper in with_context")
     for w in wr:
         withs = [x for x in walk_local(w.node) if isinstance(x, ast.With) and any(isinstance(i.context_expr, ast.Call) and call_name(i.context_expr) == "context" for i in x.items)]
-        calls = [c for c in walk_local(w.node) if isinstance(c, ast.Call) and isinstance(c.func, ast.Name) and c.func.id == "func"]
+        calls = decorated_calls(w)
         inside = all(any(c is y for x in withs for y in ast.walk(x)) for c in calls)
         ck.check(bool(withs) and bool(calls) and inside, "G-PAIR", "with_context|call-inside-with-context", w.loc(),
                  "the decorated function runs inside `with self.context(...)`", "the decorated function is called outside the `with self.context(...)` block")
@@ -160,13 +171,15 @@ def run(ck, ix, tier):
     # ------------------------------------------------------------ (e) from_context writes only the fresh copy
     fi = ix.func(CO, "Context.from_context")
     ck.analysed(fi)
-    defs = defs_of(fi)
-    fresh = {nm for nm, ds in defs.defs.items() if all(v is not None and isinstance(v, ast.Call) and isinstance(v.func, ast.Name) and v.func.id == "cls" for v, k, s in ds if k == "assign") and ds}
+    # every object written is (part of) the context constructed here: the access path of the written object, with local
+    # aliases resolved, starts at a `cls(...)` call
     n = 0
     for (p, kind, node) in writes_in(fi.node):
-        base = p.split(".")[0]
         n += 1
-        ck.check(base in fresh, "G-OWN", f"Context.from_context|writes-only-fresh-copy|{p}", fi.loc(node),
+        recv = memo.written_receivers(node)
+        bases = [memo.base_of(_sh.resolve(r, fi.node)) for r in recv]
+        fresh = bool(bases) and all(isinstance(b, ast.Call) and isinstance(b.func, ast.Name) and b.func.id == "cls" for b in bases)
+        ck.check(fresh, "G-OWN", f"Context.from_context|writes-only-fresh-copy|{p}", fi.loc(node),
                  f"`{p}` belongs to the new context", f"`{norm(node)}` writes `{p}`, which belongs to the context being parameterised (shared object mutated)")
     ck.floor("G-OWN", n, 2, "writes in Context.from_context")
     rets = [r for r in walk_local(fi.node) if isinstance(r, ast.Return)]
